@@ -36,7 +36,8 @@ CONSTANTS CfgMin, CfgMax, CfgWm, CfgFb, CfgUc, CfgUms, CfgRr,   \* raw configura
           StalePick,     \* how many superseded pickers may still be used (0 = only the latest)
           UseFail,       \* connection factory may be switched to failing
           UseUnknown,    \* state reports for a connection the balancer never saw
-          UseBadReq      \* malformed requests (empty key list, nil message, no interceptor context)
+          UseBadReq,     \* malformed requests (empty key list, nil message, no interceptor context)
+          Pre            \* index of the deterministic preamble executed first (0 = none): exploration starts from an established pool
 
 VARIABLES nconn, scst, scref, refr, slots, affm, fbm, cnt, gst, pubs, calls, addrs, cfgd, ecfg, meth,
           now, failing, rrid, pend,
@@ -52,13 +53,15 @@ Conns == 1..MaxConn
 NoSlot == [sc |-> 0, streams |-> 0, aff |-> 0, lastResp |-> 0, de |-> 0, refreshing |-> FALSE, k |-> 0]
 ErrNosc == [kind |-> "gcp", refs |-> {}]
 
+MethodSeq == <<"/v/Bind=BIND:list", "/v/Bound2=BOUND:list", "/v/Bound=BOUND:list", "/v/Unbind=UNBIND:list">>
 WBOf(sl, c, sr, rf) ==
   [ok |-> TRUE,
    streams |-> [i \in 1..Len(sl) |-> sl[i].streams],
    aff |-> [i \in 1..Len(sl) |-> sl[i].aff],
    nr |-> c.R, nc |-> c.C, nt |-> c.T,
    pool |-> Cardinality({x \in Conns : sr[x] # 0}),
-   refr |-> Cardinality({x \in Conns : rf[x] # 0})]
+   refr |-> Cardinality({x \in Conns : rf[x] # 0}),
+   cfgset |-> cfgd, ecfg |-> ecfg, meths |-> IF cfgd /\ meth THEN MethodSeq ELSE <<>>]
 
 BaseEv(op) ==
   [op |-> op, i |-> Len(hist) + 1, t |-> now + 1, av |-> 0, cfgk |-> "", c |-> 0, s |-> "", pk |-> 0, lat |-> FALSE,
@@ -162,7 +165,9 @@ Resolve(av, cfgk) ==
      IN /\ nconn + makes <= MaxConn
         /\ nconn' = a.nconn /\ scst' = a.scst /\ scref' = a.scref /\ slots' = a.slots
         /\ cfgd' = TRUE /\ ecfg' = ec /\ meth' = IF cfgd THEN meth ELSE cfgk # "none"
-        /\ Commit([e0 EXCEPT !.cc = a.cc \o fail1 \o fail2 \o updcc, !.wb = WBOf(a.slots, cnt, a.scref, refr)], inp)
+        /\ Commit([e0 EXCEPT !.cc = a.cc \o fail1 \o fail2 \o updcc,
+                              !.wb = [WBOf(a.slots, cnt, a.scref, refr) EXCEPT !.cfgset = TRUE, !.ecfg = ec,
+                                        !.meths = IF (IF cfgd THEN meth ELSE cfgk # "none") THEN MethodSeq ELSE <<>>]], inp)
         /\ UNCHANGED <<refr, affm, fbm, cnt, gst, pubs, calls, failing, rrid, pend>>
 
 ResolverError ==
@@ -412,9 +417,31 @@ ReqShapes == IF UseBadReq THEN {"", "nil"} ELSE {""}
 \* a blocked pick that has returned is delivered before anything else happens (the harness does the same)
 Undelivered == {j \in DOMAIN pend : pend[j].done}
 
-Next ==
-  /\ Len(hist) < MaxDepth
-  /\ IF Undelivered # {} THEN \E j \in Undelivered : Await(j, FALSE) ELSE
+\* deterministic preambles (same record format as the history)
+PR(av) == [op |-> "resolve", av |-> av, cfgk |-> "first"]
+PS(c, st) == [op |-> "state", c |-> c, s |-> st]
+PP(m, ks, dl) == [op |-> "pick", pk |-> -1, m |-> m, keys |-> ks, shape |-> "", noctx |-> FALSE, dl |-> dl]
+PD(n, o, rk) == [op |-> "done", n |-> n, out |-> o, rkeys |-> rk]
+PA(d) == [op |-> "advance", d |-> d]
+Preambles == <<
+  <<PR(1), PS(1, "READY")>>,                                                                  \* 1: one READY channel
+  <<PR(1), PS(1, "READY"), PS(2, "READY")>>,                                                  \* 2: two READY channels (minSize >= 2)
+  <<PR(1), PS(1, "READY"), PP("BIND", <<>>, 0), PD(1, "OK", <<1>>)>>,                         \* 3: one channel, key 1 bound
+  <<PR(1), PS(1, "READY"), PS(2, "READY"), PP("BIND", <<>>, 0), PD(1, "OK", <<1>>)>>,         \* 4: two channels, key 1 bound
+  <<PR(1), PS(1, "READY"), PS(2, "READY"), PS(3, "READY")>>,                                  \* 5: three READY channels (minSize >= 3)
+  <<PR(1), PS(1, "READY"), PP("PLAIN", <<>>, 1), PA(3), PD(1, "CDE", <<>>)>>                  \* 6: one channel with a refresh in flight (uc = 1)
+>>
+PreSeq == IF Pre = 0 THEN <<>> ELSE Preambles[Pre]
+
+DoStep(st) ==
+  CASE st.op = "resolve" -> Resolve(st.av, st.cfgk)
+    [] st.op = "state" -> Report(st.c, st.s)
+    [] st.op = "pick" -> Pick(IF st.pk = -1 THEN Len(pubs) ELSE st.pk, st.m, st.keys, st.shape, st.noctx, st.dl)
+    [] st.op = "done" -> DoneCall(st.n, st.out, st.rkeys)
+    [] st.op = "advance" -> Advance(st.d)
+
+FreeNext ==
+  IF Undelivered # {} THEN \E j \in Undelivered : Await(j, FALSE) ELSE
      \/ \E av \in AVs, ck \in CfgKinds : Resolve(av, ck)
      \/ (cfgd /\ ResolverError)
      \/ \E c \in (IF UseUnknown THEN 0..nconn ELSE 1..nconn), s \in States : Report(c, s)
@@ -431,6 +458,10 @@ Next ==
      \/ \E d \in Advs : Advance(d)
      \/ \E b \in BOOLEAN : Factory(b)
      \/ \E j \in DOMAIN pend, cn \in BOOLEAN : Await(j, cn)
+
+Next ==
+  /\ Len(hist) < MaxDepth
+  /\ IF Len(hist) < Len(PreSeq) THEN DoStep(PreSeq[Len(hist) + 1]) ELSE FreeNext
 
 Spec == Init /\ [][Next]_vars
 
